@@ -32,6 +32,9 @@ struct Params {
     /// `Proxy::call_method`, odd callers `Proxy::call_with_flags(NoAutoStart | AllowInteractiveAuth)`
     /// and the no-reply call is `call_with_flags(NoReplyExpected | NoAutoStart)`
     via_proxy: bool,
+    /// the writing task yields once right after each write took effect (the peer has the call,
+    /// and may answer it, before `send` returns to the caller)
+    yield_after_write: bool,
 }
 
 #[derive(Clone, Debug, PartialEq)]
@@ -85,6 +88,9 @@ fn scenario(p: Params) -> ExecResult {
             b.build().await.unwrap()
         })
         .expect("build");
+    if p.yield_after_write {
+        link.a2b.with(|c| c.write_mode = crate::world::WriteMode::YieldAfter);
+    }
     // callers
     let mut callers: Vec<Handle<CallResult>> = vec![];
     for i in 0..p.callers {
@@ -458,6 +464,7 @@ pub fn main(args: &Args) -> i32 {
                 strays: j["strays"].as_u64().unwrap_or(0) as usize,
                 burst: j["burst"].as_bool().unwrap_or(false),
                 via_proxy: j["via_proxy"].as_bool().unwrap_or(false),
+                yield_after_write: j["yield_after_write"].as_bool().unwrap_or(false),
             };
             Some(Box::new(move || scenario(p)))
         });
@@ -468,48 +475,59 @@ pub fn main(args: &Args) -> i32 {
     let scenarios: Vec<(&str, Params, Vec<Option<usize>>)> = vec![
         (
             "two-callers",
-            Params { callers: 2, noreply: false, timeout: false, eof: true, strays: 1, burst: false, via_proxy: false },
+            Params { callers: 2, noreply: false, timeout: false, eof: true, strays: 1, burst: false, via_proxy: false, yield_after_write: false },
             if quick { vec![Some(5)] } else { vec![Some(7), None] },
         ),
         (
             "two-callers-noreply",
-            Params { callers: 2, noreply: true, timeout: false, eof: false, strays: 0, burst: false, via_proxy: false },
+            Params { callers: 2, noreply: true, timeout: false, eof: false, strays: 0, burst: false, via_proxy: false, yield_after_write: false },
             if quick { vec![Some(4)] } else { vec![Some(6), Some(7)] },
         ),
         (
             "three-callers",
-            Params { callers: 3, noreply: false, timeout: false, eof: true, strays: 1, burst: false, via_proxy: false },
+            Params { callers: 3, noreply: false, timeout: false, eof: true, strays: 1, burst: false, via_proxy: false, yield_after_write: false },
             if quick { vec![Some(4)] } else { vec![Some(6), Some(7)] },
         ),
         (
             "timeout-one-caller",
-            Params { callers: 1, noreply: false, timeout: true, eof: true, strays: 1, burst: false, via_proxy: false },
+            Params { callers: 1, noreply: false, timeout: true, eof: true, strays: 1, burst: false, via_proxy: false, yield_after_write: false },
             vec![None],
         ),
         (
             "timeout-two-callers",
-            Params { callers: 2, noreply: false, timeout: true, eof: false, strays: 0, burst: false, via_proxy: false },
+            Params { callers: 2, noreply: false, timeout: true, eof: false, strays: 0, burst: false, via_proxy: false, yield_after_write: false },
+            if quick { vec![Some(4)] } else { vec![Some(6), Some(7)] },
+        ),
+        (
+            // the reply can be delivered before `send` has returned to the caller
+            "reply-before-send-returns",
+            Params { callers: 2, noreply: false, timeout: false, eof: false, strays: 0, burst: false, via_proxy: false, yield_after_write: true },
+            if quick { vec![Some(4)] } else { vec![Some(6), Some(7)] },
+        ),
+        (
+            "reply-before-send-returns-timeout-noreply",
+            Params { callers: 1, noreply: true, timeout: true, eof: false, strays: 0, burst: false, via_proxy: true, yield_after_write: true },
             if quick { vec![Some(4)] } else { vec![Some(6), Some(7)] },
         ),
         (
             "proxy-callers",
-            Params { callers: 2, noreply: false, timeout: false, eof: true, strays: 1, burst: false, via_proxy: true },
+            Params { callers: 2, noreply: false, timeout: false, eof: true, strays: 1, burst: false, via_proxy: true, yield_after_write: false },
             if quick { vec![Some(4)] } else { vec![Some(6), Some(7)] },
         ),
         (
             "proxy-callers-noreply-with-flags",
-            Params { callers: 2, noreply: true, timeout: false, eof: false, strays: 0, burst: false, via_proxy: true },
+            Params { callers: 2, noreply: true, timeout: false, eof: false, strays: 0, burst: false, via_proxy: true, yield_after_write: false },
             if quick { vec![Some(3)] } else { vec![Some(5), Some(6)] },
         ),
         (
             "proxy-timeout-two-callers",
-            Params { callers: 2, noreply: false, timeout: true, eof: false, strays: 0, burst: false, via_proxy: true },
+            Params { callers: 2, noreply: false, timeout: true, eof: false, strays: 0, burst: false, via_proxy: true, yield_after_write: false },
             if quick { vec![Some(3)] } else { vec![Some(5), Some(6)] },
         ),
         (
             "queue-pressure",
             // more stray replies than the method-return queue holds (8)
-            Params { callers: 2, noreply: false, timeout: false, eof: false, strays: 10, burst: true, via_proxy: false },
+            Params { callers: 2, noreply: false, timeout: false, eof: false, strays: 10, burst: true, via_proxy: false, yield_after_write: false },
             if quick { vec![Some(4)] } else { vec![Some(6)] },
         ),
     ];
@@ -523,12 +541,12 @@ pub fn main(args: &Args) -> i32 {
             &report,
             &totals,
             name,
-            json!({"callers": p.callers, "noreply": p.noreply, "timeout": p.timeout, "eof": p.eof, "strays": p.strays, "burst": p.burst, "via_proxy": p.via_proxy}),
+            json!({"callers": p.callers, "noreply": p.noreply, "timeout": p.timeout, "eof": p.eof, "strays": p.strays, "burst": p.burst, "via_proxy": p.via_proxy, "yield_after_write": p.yield_after_write}),
             &plan,
             move || scenario(p),
         );
     }
-    report.assume("interleaving granularity is one task poll; the transport accepts whole writes in this check (partial writes are C18)");
+    report.assume("interleaving granularity is one task poll; the transport accepts whole writes in this check (partial writes are C18); in the reply-before-send-returns scenarios the writing task additionally yields once right after each write took effect");
     report.assume("the peer only answers calls it has completely received (it reads serial numbers off the wire)");
     finish_model_checking(
         &report,
